@@ -174,7 +174,8 @@ impl FileDesc {
                 })?;
 
                 if let SchemeSpecific::RaptorQ(scheme) = oti.scheme_specific.as_mut().unwrap() {
-                    scheme.source_blocks_length = nb_blocks;
+                    // Z must be at least 1, even for an empty object
+                    scheme.source_blocks_length = nb_blocks.max(1);
                 }
             } else if oti.fec_encoding_id == oti::FECEncodingID::Raptor {
                 if oti.scheme_specific.is_none() {
@@ -192,7 +193,8 @@ impl FileDesc {
                 })?;
 
                 if let SchemeSpecific::Raptor(scheme) = oti.scheme_specific.as_mut().unwrap() {
-                    scheme.source_blocks_length = nb_blocks;
+                    // Z must be at least 1, even for an empty object
+                    scheme.source_blocks_length = nb_blocks.max(1);
                 }
             }
         }
